@@ -272,8 +272,12 @@ func (mw *msgWriter) startMP(mimeType MIMEType, boundary string) string {
 		mw.err = multiPartWriter.SetBoundary(boundary)
 	}
 
-	contentType := fmt.Sprintf("multipart/%s;\r\n boundary=%s", mimeType,
-		multiPartWriter.Boundary())
+	// a boundary with characters outside the RFC 2045 token set has to be a quoted-string
+	boundaryParam := multiPartWriter.Boundary()
+	if strings.ContainsAny(boundaryParam, "()<>@,;:\\\"/[]?= ") {
+		boundaryParam = `"` + boundaryParam + `"`
+	}
+	contentType := fmt.Sprintf("multipart/%s;\r\n boundary=%s", mimeType, boundaryParam)
 	mw.multiPartWriter[mw.depth] = multiPartWriter
 
 	if mw.depth == 0 {
